@@ -6,6 +6,7 @@ import (
 	"bytes"
 	"encoding/hex"
 	"errors"
+	"fmt"
 	"go/types"
 	"html"
 	"math"
@@ -226,5 +227,52 @@ func init() {
 			return tuple{strVal(mkSubstr(s, mkInt(0), mkSub(mkLen(s), mkLen(p)))), true}
 		}
 		return tuple{strVal(s), false}
+	})
+}
+
+// (net.IP).Equal: concrete operands are compared natively; with a symbolic operand the result is
+// the uninterpreted predicate u_ip_equal over the two address texts ("" stands for the nil IP),
+// constrained by reflexivity and validated on models by the native evaluator (refine_agentC.go).
+func init() {
+	ipText := func(v value) (conc string, sym *Term) {
+		switch ip := v.(type) {
+		case native:
+			return ip.v.(net.IP).String(), nil
+		case []value:
+			if len(ip) == 0 {
+				return "", nil
+			}
+			b := make(net.IP, len(ip))
+			for k, x := range ip {
+				b[k] = x.(uint8)
+			}
+			return b.String(), nil
+		case symIP:
+			if ip.s.IsConst() {
+				return ip.s.S, nil
+			}
+			return "", ip.s
+		}
+		panic(unmodelled{fmt.Sprintf("net.IP operand %T", v)})
+	}
+	ufNative["u_ip_equal"] = func(a []*Term) *Term {
+		return mkBool(net.ParseIP(a[0].S).Equal(net.ParseIP(a[1].S)))
+	}
+	reg("(net.IP).Equal", func(fr *frame, a []value) value {
+		c0, s0 := ipText(a[0])
+		c1, s1 := ipText(a[1])
+		if s0 == nil && s1 == nil {
+			return net.ParseIP(c0).Equal(net.ParseIP(c1))
+		}
+		t0, t1 := s0, s1
+		if t0 == nil {
+			t0 = mkStr(c0)
+		}
+		if t1 == nil {
+			t1 = mkStr(c1)
+		}
+		r := mkUF("u_ip_equal", SBool, t0, t1)
+		fr.i.m.assume(mkImplies(mkEq(t0, t1), r))
+		return boolVal(r)
 	})
 }
